@@ -125,6 +125,9 @@ class LocalProcessBuilder(ProcessBuilder):
                 env=self.environ,
                 close_fds=True,
                 cwd="/",
+                # Own session: signals sent to the process group of the
+                # experiment (Ctrl-C, hang-up) do not reach the job
+                start_new_session=True,
             )
         else:
             p = subprocess.Popen(
